@@ -385,6 +385,10 @@ def job_refit(job, n):
             break   # the remaining paths differ only in how the guesses were clipped into the bounds
 
 
+# concrete replays run on the real code when the changed code uses something the engine does not model (harness.finish)
+FALLBACK = [(replay_scaling, {}), (replay_scaling, {"partial": True}), (replay_fit, {}), (replay_fit, {"with_tau": True}), (replay_fit, {"inf_hi": True}), (replay_lsq, {}), (replay_lsq, {"with_tau": False}), (replay_refit, {}), (replay_bounds, {}), (replay_regularize, {})]
+
+
 def jobs(tier):
     out = [("scaling-2", lambda j: job_scaling(j, 2)), ("bounds", job_bounds), ("fit-2", lambda j: job_fit(j, 2)), ("refit-2", lambda j: job_refit(j, 2)),
            ("fit-2-halfinf", lambda j: job_fit(j, 2, inf_hi=True))]
